@@ -236,6 +236,10 @@ def run_config(chk, ctx, name):
     for b, t in post:
         name_ = core.strip_generics(core.callee_path(t) or "?")
         ok, why = infallible_capacity_copy(F, f, b, t)
+        if not ok:
+            # the structural capacity argument does not apply: fall back to the variant analysis of the callee in context
+            ok2, why2 = ia_proves_ok(F, A, f, b)
+            ok, why = ok2, "%s; %s" % (why, why2)
         chk.ob("R4.no-failure-after-callback", "%s->%s%s" % (core.strip_generics(core_path), name_, tag), ok,
                "fallible step %s runs after the callback accepted the new key; a failure there loses the signature of a consumed leaf: %s" % (name_, why),
                where=f.loc(b))
@@ -367,6 +371,20 @@ def arrayvec_capacity(ty):
         if a.get("k") == "array":
             return a.get("len")
     return None
+
+
+def ia_proves_ok(F, A, f, b):
+    """Interval / variant analysis from the signing entry points: the Result produced by the local call in block b
+    of f is Ok in every analysed context."""
+    from . import ia
+    an = getattr(F, "_c04_ia", None)
+    if an is None:
+        an = ia.Analyzer(F)
+        for e in A.entries_sign():
+            an.call_local(e, [None] * F.fns[e].arg_count)
+        F._c04_ia = an
+    okv = an.call_ok_obs.get((f.path, b), "none")
+    return okv == (1, 1), "IA: Ok-ness of the result in all contexts = %s" % (okv,)
 
 
 def infallible_capacity_copy(F, f, b, t):
